@@ -280,6 +280,20 @@ class DumpExec:
                     q.nodes.append(st)
                     outs.append((q, env))
                 return outs
+            if d == prm_stream + ".extend" and len(c.args) == 1 and isinstance(c.args[0], (ast.Tuple, ast.List)) and \
+                    not any(isinstance(x, ast.Starred) for x in c.args[0].elts):
+                # stream.extend((a, b)) == stream.append(a); stream.append(b)
+                states = [(p, env)]
+                for el in c.args[0].elts:
+                    ap = ast.Expr(value=ast.Call(func=ast.Attribute(value=ast.Name(id=prm_stream, ctx=ast.Load()), attr="append",
+                                                                    ctx=ast.Load()), args=[el], keywords=[]))
+                    ast.copy_location(ap, st)
+                    ast.fix_missing_locations(ap)
+                    for x in ast.walk(ap):
+                        if not hasattr(x, "_module") and hasattr(st, "_module"):
+                            x._module = st._module
+                    states = [r for (p2, e2) in states for r in self.stmt(ap, p2, e2, func, depth)]
+                return states
             if d == "_dump" and len(c.args) == 2:
                 p = p.clone()
                 p.raw.append(("child", subst(c.args[0], env), st))
